@@ -1,8 +1,435 @@
-//! C14 observations (see props/c14.py for the consumer).
+//! C14 observations: 1-D / 2-D grids and their double-ended iterators, index maps, transpose_vec, the three
+//! (signal, idler) space representations and their conversions, and the range evaluators of JointSpectrum.
+//! Consumer: props/c14.py.  usage: vharness c14 <seed> <n> [grid|range|all]
 #![allow(unused_imports, dead_code)]
 use crate::common::*;
-use serde_json::json;
+use serde_json::{json, Value};
+use spdcalc::dim::ucum::{M, RAD, S};
+use spdcalc::dim::Dimensioned;
+use spdcalc::jsa::{
+  FrequencySpace, IntoSignalIdlerIterator, SignalIdlerFrequencyArray, SignalIdlerWavelengthArray,
+  SumDiffFrequencySpace, WavelengthSpace,
+};
+use spdcalc::math::Integrator;
+use spdcalc::utils::{get_1d_index, get_2d_indices, transpose_vec, Iterator2D, Steps, Steps2D};
+use spdcalc::{Complex, Frequency, Wavelength, SPDC};
 
-pub fn run(_args: &[String]) {
-  emit(json!({"kind": "not_implemented", "property": "C14"}));
+fn hz(x: f64) -> Frequency {
+  x * RAD / S
+}
+fn fv(x: Frequency) -> f64 {
+  *x.value_unsafe()
+}
+fn wv(x: Wavelength) -> f64 {
+  *x.value_unsafe()
+}
+
+/// endpoints of one axis, by class
+fn endpoints(rng: &mut Rng, cls: &str) -> (f64, f64) {
+  match cls {
+    "asc" => {
+      let a = rng.range(-10., 10.);
+      (a, a + rng.range(0.01, 20.))
+    }
+    "desc" => {
+      let a = rng.range(-10., 10.);
+      (a, a - rng.range(0.01, 20.))
+    }
+    "degenerate" => {
+      let a = rng.range(-10., 10.);
+      (a, a)
+    }
+    "dyadic" => {
+      // small integers: with n-1 a power of two every intermediate of Steps::value is exact in binary64
+      let a = (rng.below(64) as f64) - 32.;
+      let b = (rng.below(64) as f64) - 32.;
+      (a, b)
+    }
+    "freq" => {
+      let a = rng.range(1.0e15, 1.4e15);
+      (a, a + rng.range(1e12, 2e14))
+    }
+    "wavelength" => {
+      let a = rng.range(0.4e-6, 3e-6);
+      (a, a + rng.range(1e-9, 400e-9))
+    }
+    "mixed" => (-rng.range(0.1, 5.), rng.range(0.1, 5.)),
+    _ => (rng.log_range(1e-9, 1e9), -rng.log_range(1e-9, 1e9)),
+  }
+}
+
+const CLASSES: [&str; 8] = ["asc", "desc", "degenerate", "dyadic", "freq", "wavelength", "mixed", "wide"];
+
+fn count_for(rng: &mut Rng, k: usize, cls: &str) -> usize {
+  if cls == "dyadic" {
+    return [2usize, 3, 5, 9, 17, 33, 65, 129, 257][rng.below(9)];
+  }
+  match k % 8 {
+    0 => 0,
+    1 => 1,
+    2 => 2,
+    3 => 3,
+    4 => 300,
+    _ => rng.below(301),
+  }
+}
+
+fn opt_fx(v: Option<f64>) -> Value {
+  match v {
+    Some(x) => fx(x),
+    None => Value::Null,
+  }
+}
+
+fn steps_case(rng: &mut Rng, k: usize) {
+  let cls = CLASSES[k % CLASSES.len()];
+  let (s, e) = endpoints(rng, cls);
+  let n = count_for(rng, k / CLASSES.len(), cls);
+  let st = Steps(s, e, n);
+  let fwd: Vec<f64> = st.into_iter().collect();
+  let rev: Vec<f64> = st.into_iter().rev().collect();
+  let by_value: Vec<f64> = (0..n).map(|i| st.value(i)).collect();
+  // random interleaving of next / next_back, three calls more than there are items
+  let mut it = st.into_iter();
+  let len0 = it.len();
+  let mut sched = String::new();
+  let mut mixed: Vec<Value> = vec![];
+  for _ in 0..(n + 3) {
+    if rng.coin() {
+      sched.push('F');
+      mixed.push(opt_fx(it.next()));
+    } else {
+      sched.push('B');
+      mixed.push(opt_fx(it.next_back()));
+    }
+  }
+  // the same range over a dimensioned quantity
+  let std = Steps(s * M, e * M, n);
+  let fwd_dim: Vec<f64> = std.into_iter().map(wv).collect();
+  let dw = if n >= 2 { Some(st.division_width()) } else { None };
+  emit(json!({"kind": "steps", "cls": cls, "s": fx(s), "e": fx(e), "n": n, "fwd": fxs(&fwd), "rev": fxs(&rev),
+    "by_value": fxs(&by_value), "sched": sched, "mixed": mixed, "len": len0, "fwd_dim": fxs(&fwd_dim), "dw": opt_fx(dw)}));
+}
+
+fn flat(p: &[(f64, f64)]) -> Value {
+  let mut v = Vec::with_capacity(2 * p.len());
+  for (x, y) in p {
+    v.push(fx(*x));
+    v.push(fx(*y));
+  }
+  Value::Array(v)
+}
+
+fn steps2d_case(rng: &mut Rng, k: usize, full_limit: usize) {
+  let clsx = CLASSES[k % CLASSES.len()];
+  let clsy = CLASSES[(k / 3 + 1) % CLASSES.len()];
+  let (x0, x1) = endpoints(rng, clsx);
+  let (y0, y1) = endpoints(rng, clsy);
+  let (nx, ny) = match k % 10 {
+    0 => (0, rng.below(5)),
+    1 => (rng.below(5), 0),
+    2 => (1, 1 + rng.below(8)),
+    3 => (1 + rng.below(8), 1),
+    4 => (2, 3),
+    5 => (300, 1 + rng.below(300)),
+    6 => (1 + rng.below(300), 300),
+    _ => (count_for(rng, 7, clsx), count_for(rng, 7, clsy)),
+  };
+  let g = Steps2D((x0, x1, nx), (y0, y1, ny));
+  let total = nx * ny;
+  let it = g.into_iter();
+  let len0 = it.len();
+  let pts: Vec<(f64, f64)> = it.collect();
+  let count = pts.len();
+  let mut o = json!({"kind": "steps2d", "clsx": clsx, "clsy": clsy, "x0": fx(x0), "x1": fx(x1), "nx": nx,
+    "y0": fx(y0), "y1": fx(y1), "ny": ny, "len": len0, "steps_len": g.len(), "count": count});
+  // Rust-vs-Rust facts that need the whole sequence are reduced here for the large grids; the small ones are printed in full
+  let by_value_same = (0..count.min(total)).all(|i| {
+    let v = g.value(i);
+    v.0.to_bits() == pts[i].0.to_bits() && v.1.to_bits() == pts[i].1.to_bits()
+  });
+  let rev: Vec<(f64, f64)> = g.into_iter().rev().collect();
+  let rev_same = rev.len() == count
+    && (0..count).all(|i| rev[count - 1 - i].0.to_bits() == pts[i].0.to_bits() && rev[count - 1 - i].1.to_bits() == pts[i].1.to_bits());
+  // dimensioned grid gives the same numbers
+  let gd = Steps2D((hz(x0), hz(x1), nx), (hz(y0), hz(y1), ny));
+  let ptsd: Vec<(f64, f64)> = gd.into_iter().map(|(a, b)| (fv(a), fv(b))).collect();
+  let dim_same = ptsd.len() == count && (0..count).all(|i| ptsd[i].0.to_bits() == pts[i].0.to_bits() && ptsd[i].1.to_bits() == pts[i].1.to_bits());
+  o["by_value_same"] = json!(by_value_same);
+  o["rev_same"] = json!(rev_same);
+  o["dim_same"] = json!(dim_same);
+  if count <= full_limit {
+    o["pts"] = flat(&pts);
+    // an interleaving
+    let mut it = g.into_iter();
+    let mut sched = String::new();
+    let mut mixed: Vec<Value> = vec![];
+    for _ in 0..(count + 2) {
+      let r = if rng.coin() {
+        sched.push('F');
+        it.next()
+      } else {
+        sched.push('B');
+        it.next_back()
+      };
+      match r {
+        Some((x, y)) => {
+          mixed.push(fx(x));
+          mixed.push(fx(y));
+        }
+        None => {
+          mixed.push(Value::Null);
+          mixed.push(Value::Null);
+        }
+      }
+    }
+    o["sched"] = json!(sched);
+    o["mixed"] = Value::Array(mixed);
+  } else {
+    // sample: first row, last point, random indices
+    let mut idx: Vec<usize> = (0..nx.min(count)).collect();
+    idx.push(count - 1);
+    idx.push(nx.min(count - 1));
+    for _ in 0..200 {
+      idx.push(rng.below(count));
+    }
+    let sp: Vec<(f64, f64)> = idx.iter().map(|i| pts[*i]).collect();
+    o["sample_idx"] = json!(idx);
+    o["sample_pts"] = flat(&sp);
+    // whole-sequence facts: rows share y bit-exactly, columns share x bit-exactly
+    let rows_ok = (0..count).all(|i| pts[i].1.to_bits() == pts[(i / nx) * nx].1.to_bits());
+    let cols_ok = (0..count).all(|i| pts[i].0.to_bits() == pts[i % nx].0.to_bits());
+    o["rows_share_y"] = json!(rows_ok);
+    o["cols_share_x"] = json!(cols_ok);
+  }
+  emit(o);
+}
+
+fn idx_cases(rng: &mut Rng, n: usize) {
+  for cols in 1..=12usize {
+    let mut rows2d = vec![];
+    for index in 0..(cols * 12) {
+      let (c, r) = get_2d_indices(index, cols);
+      rows2d.push(json!([index, c, r]));
+    }
+    let mut rows1d = vec![];
+    for col in 0..cols {
+      for row in 0..12usize {
+        rows1d.push(json!([col, row, get_1d_index(col, row, cols)]));
+      }
+    }
+    emit(json!({"kind": "idx", "cols": cols, "to2d": rows2d, "to1d": rows1d}));
+  }
+  for _ in 0..n {
+    let cols = 1 + rng.below(100000);
+    let index = rng.below(1usize << 40);
+    let (c, r) = get_2d_indices(index, cols);
+    let col = rng.below(cols);
+    let row = rng.below(1 << 20);
+    emit(json!({"kind": "idx", "cols": cols, "to2d": [[index, c, r]], "to1d": [[col, row, get_1d_index(col, row, cols)]]}));
+  }
+  // the documented precondition of get_1d_index: col < cols
+  let r = guarded(|| get_1d_index(3, 0, 3));
+  emit(json!({"kind": "idx_guard", "call": "get_1d_index(3,0,3)", "panicked": r.is_err()}));
+}
+
+fn transpose_cases(rng: &mut Rng) {
+  for rows in 1..=12usize {
+    for cols in 1..=12usize {
+      let v: Vec<u32> = (0..(rows * cols) as u32).collect();
+      let r = guarded(move || transpose_vec(v, cols));
+      match r {
+        Ok(out) => emit(json!({"kind": "transpose", "rows": rows, "cols": cols, "out": out, "panic": Value::Null})),
+        Err(m) => emit(json!({"kind": "transpose", "rows": rows, "cols": cols, "out": Value::Null, "panic": m})),
+      }
+    }
+  }
+  // random contents on square shapes (the values must only be moved, never combined)
+  for _ in 0..6 {
+    let n = 1 + rng.below(12);
+    let v: Vec<f64> = (0..n * n).map(|_| rng.range(-1., 1.)).collect();
+    let v2 = v.clone();
+    let r = guarded(move || transpose_vec(v2, n));
+    emit(json!({"kind": "transpose_f", "n": n, "inp": fxs(&v), "out": r.ok().map(|o| fxs(&o))}));
+  }
+}
+
+fn axis_json(a: (f64, f64, usize)) -> Value {
+  json!([fx(a.0), fx(a.1), a.2])
+}
+fn fs_json(f: &FrequencySpace) -> Value {
+  let s = f.as_steps();
+  json!([axis_json((fv(s.0 .0), fv(s.0 .1), s.0 .2)), axis_json((fv(s.1 .0), fv(s.1 .1), s.1 .2))])
+}
+fn sd_json(f: &SumDiffFrequencySpace) -> Value {
+  let s = f.as_steps();
+  json!([axis_json((fv(s.0 .0), fv(s.0 .1), s.0 .2)), axis_json((fv(s.1 .0), fv(s.1 .1), s.1 .2))])
+}
+fn ws_json(f: &WavelengthSpace) -> Value {
+  let s = f.as_steps();
+  json!([axis_json((wv(s.0 .0), wv(s.0 .1), s.0 .2)), axis_json((wv(s.1 .0), wv(s.1 .1), s.1 .2))])
+}
+fn si_json<T: IntoSignalIdlerIterator>(t: T) -> Value {
+  let p: Vec<(f64, f64)> = t.into_signal_idler_iterator().map(|(a, b)| (fv(a), fv(b))).collect();
+  flat(&p)
+}
+
+fn space_case(rng: &mut Rng, k: usize) {
+  let nx = if k % 5 == 0 { rng.below(301) } else { 1 + rng.below(6) };
+  let ny = if k % 5 == 0 { rng.below(301) } else { 1 + rng.below(6) };
+  // wavelength space; every fourth one is given with descending axes
+  let (mut a0, mut a1) = endpoints(rng, "wavelength");
+  let (mut b0, mut b1) = endpoints(rng, "wavelength");
+  if k % 4 == 3 {
+    std::mem::swap(&mut a0, &mut a1);
+    std::mem::swap(&mut b0, &mut b1);
+  }
+  let ws = WavelengthSpace::new((a0 * M, a1 * M, nx), (b0 * M, b1 * M, ny));
+  let fs = ws.as_frequency_space();
+  let ws2 = fs.as_wavelength_space();
+  let sd = fs.as_sum_diff_space();
+  let fs2 = sd.as_frequency_space();
+  let sd2 = fs2.as_sum_diff_space();
+  let sdw = ws.as_sum_diff_space();
+  let wsd = sd.as_wavelength_space();
+  let mut o = json!({"kind": "space", "from": "wavelength", "ws": ws_json(&ws), "fs": fs_json(&fs), "ws2": ws_json(&ws2),
+    "sd": sd_json(&sd), "fs2": fs_json(&fs2), "sd2": sd_json(&sd2), "sd_from_ws": sd_json(&sdw), "ws_from_sd": ws_json(&wsd)});
+  if nx * ny <= 36 {
+    o["ws_si"] = si_json(ws);
+    o["fs_si"] = si_json(fs);
+    o["sd_si"] = si_json(sd);
+    o["fs2_si"] = si_json(fs2);
+  }
+  emit(o);
+  // frequency space with equal spans (the documented case in which frequency -> sum/diff -> frequency is the identity)
+  let (f0, f1) = endpoints(rng, "freq");
+  let g0 = rng.range(1.0e15, 1.4e15);
+  let equal = k % 2 == 0;
+  // dyadic endpoints make the equal-span round trip exact in binary64
+  let q = 1.0e3 * 1024.;
+  let (f0, f1, g0) = ((f0 / q).round() * q, (f1 / q).round() * q, (g0 / q).round() * q);
+  let g1 = if equal { g0 + (f1 - f0) } else { g0 + (f1 - f0) * rng.range(1.2, 3.) };
+  let fs = FrequencySpace::new((hz(f0), hz(f1), nx), (hz(g0), hz(g1), ny));
+  let sd = fs.as_sum_diff_space();
+  let fs2 = sd.as_frequency_space();
+  let sd2 = fs2.as_sum_diff_space();
+  let ws = fs.as_wavelength_space();
+  let fs3 = ws.as_frequency_space();
+  let mut o = json!({"kind": "space", "from": "frequency", "equal_spans": equal, "fs": fs_json(&fs), "sd": sd_json(&sd), "fs2": fs_json(&fs2),
+    "sd2": sd_json(&sd2), "ws": ws_json(&ws), "fs3": fs_json(&fs3)});
+  if nx * ny <= 36 {
+    o["fs_si"] = si_json(fs);
+    o["sd_si"] = si_json(sd);
+    o["ws_si"] = si_json(ws);
+  }
+  emit(o);
+  // a sum/diff space given directly
+  let (s0, s1) = endpoints(rng, "freq");
+  let d1 = rng.range(1e12, 1e14);
+  let sd = SumDiffFrequencySpace::new((hz(s0), hz(s1), nx), (hz(-d1), hz(d1), ny));
+  let fs = sd.as_frequency_space();
+  let sd2 = fs.as_sum_diff_space();
+  let fs2 = sd2.as_frequency_space();
+  emit(json!({"kind": "space", "from": "sumdiff", "sd": sd_json(&sd), "fs": fs_json(&fs), "sd2": sd_json(&sd2), "fs2": fs_json(&fs2)}));
+}
+
+fn cx(v: &[Complex<f64>]) -> Value {
+  let mut out = Vec::with_capacity(2 * v.len());
+  for z in v {
+    out.push(fx(z.re));
+    out.push(fx(z.im));
+  }
+  Value::Array(out)
+}
+
+fn spdc_for(k: usize) -> SPDC {
+  if k % 2 == 0 {
+    SPDC::default()
+  } else {
+    SPDC::from_json(serde_json::json!({
+      "crystal": {"kind": "KTP", "pm_type": "e->eo", "phi_deg": 0, "theta_deg": 90, "length_um": 14000, "temperature_c": 20},
+      "pump": {"wavelength_nm": 775, "waist_um": 200, "bandwidth_nm": 0.5, "average_power_mw": 300},
+      "signal": {"wavelength_nm": 1550, "phi_deg": 0, "theta_external_deg": 0, "waist_um": 100, "waist_position_um": "auto"},
+      "idler": "auto",
+      "periodic_poling": {"poling_period_um": "auto"},
+      "deff_pm_per_volt": 7.6
+    }))
+    .unwrap()
+  }
+}
+
+/// range evaluators against point-by-point evaluation over the sequential iterator, in the three representations and as flat lists
+fn range_case(rng: &mut Rng, k: usize) {
+  let spdc = spdc_for(k);
+  let integrator = Integrator::Simpson { divs: 10 + 2 * rng.below(6) };
+  let sp = spdc.joint_spectrum(integrator);
+  let nx = 2 + rng.below(6);
+  let ny = 2 + rng.below(6);
+  let base = spdc.optimum_range(8).as_steps();
+  let shrink = rng.range(0.6, 1.0);
+  let cxs = 0.5 * (fv(base.0 .0) + fv(base.0 .1));
+  let cys = 0.5 * (fv(base.1 .0) + fv(base.1 .1));
+  let hx = 0.5 * shrink * (fv(base.0 .1) - fv(base.0 .0));
+  let hy = 0.5 * shrink * (fv(base.1 .1) - fv(base.1 .0));
+  let fs = FrequencySpace::new((hz(cxs - hx), hz(cxs + hx), nx), (hz(cys - hy), hz(cys + hy), ny));
+  let ws = fs.as_wavelength_space();
+  let sd = fs.as_sum_diff_space();
+  let singles = k % 3 == 0;
+  let emit_rep = |rep: &str, pts: Vec<(Frequency, Frequency)>, jsa: Vec<Complex<f64>>, jsi: Vec<f64>, jsin: Vec<f64>, jsis: Option<Vec<f64>>,
+                      flat_jsi: Vec<f64>, grid: Value| {
+    let jsa_pt: Vec<Complex<f64>> = pts.iter().map(|(a, b)| sp.jsa(*a, *b)).collect();
+    let jsi_pt: Vec<f64> = pts.iter().map(|(a, b)| *(sp.jsi(*a, *b).value_unsafe())).collect();
+    let jsin_pt: Vec<f64> = pts.iter().map(|(a, b)| sp.jsi_normalized(*a, *b)).collect();
+    let jsis_pt: Option<Vec<f64>> = jsis.as_ref().map(|_| pts.iter().map(|(a, b)| *(sp.jsi_singles(*a, *b).value_unsafe())).collect());
+    let p: Vec<(f64, f64)> = pts.iter().map(|(a, b)| (fv(*a), fv(*b))).collect();
+    emit(json!({"kind": "range", "rep": rep, "spdc": k % 2, "nx": nx, "ny": ny, "grid": grid, "pts": flat(&p),
+      "jsa": cx(&jsa), "jsa_pt": cx(&jsa_pt), "jsi": fxs(&jsi), "jsi_pt": fxs(&jsi_pt), "jsin": fxs(&jsin), "jsin_pt": fxs(&jsin_pt),
+      "jsis": jsis.as_ref().map(|v| fxs(v)), "jsis_pt": jsis_pt.as_ref().map(|v| fxs(v)), "flat_jsi": fxs(&flat_jsi)}));
+  };
+  let un = |v: Vec<spdcalc::JSIUnits<f64>>| -> Vec<f64> { v.iter().map(|x| *x.value_unsafe()).collect() };
+  {
+    let pts: Vec<(Frequency, Frequency)> = fs.into_signal_idler_iterator().collect();
+    let flat_list: Vec<Frequency> = pts.iter().flat_map(|(a, b)| [*a, *b]).collect();
+    emit_rep("frequency", pts, sp.jsa_range(fs), un(sp.jsi_range(fs)), sp.jsi_normalized_range(fs),
+      if singles { Some(un(sp.jsi_singles_range(fs))) } else { None },
+      un(sp.jsi_range(SignalIdlerFrequencyArray(flat_list))), fs_json(&fs));
+  }
+  {
+    let pts: Vec<(Frequency, Frequency)> = ws.into_signal_idler_iterator().collect();
+    let flat_list: Vec<Wavelength> = ws.as_steps().into_iter().flat_map(|(a, b)| [a, b]).collect();
+    emit_rep("wavelength", pts, sp.jsa_range(ws), un(sp.jsi_range(ws)), sp.jsi_normalized_range(ws),
+      if singles { Some(un(sp.jsi_singles_range(ws))) } else { None },
+      un(sp.jsi_range(SignalIdlerWavelengthArray(flat_list))), ws_json(&ws));
+  }
+  {
+    let pts: Vec<(Frequency, Frequency)> = sd.into_signal_idler_iterator().collect();
+    let flat_list: Vec<Frequency> = pts.iter().flat_map(|(a, b)| [*a, *b]).collect();
+    emit_rep("sumdiff", pts, sp.jsa_range(sd), un(sp.jsi_range(sd)), sp.jsi_normalized_range(sd), None,
+      un(sp.jsi_range(SignalIdlerFrequencyArray(flat_list))), sd_json(&sd));
+  }
+}
+
+pub fn run(args: &[String]) {
+  let seed = arg_u64(args, 0, 1);
+  let n = arg_u64(args, 1, 4) as usize;
+  let mode = args.get(2).map(|s| s.as_str()).unwrap_or("all");
+  let mut rng = Rng::new(seed);
+  if mode == "grid" || mode == "all" {
+    for k in 0..(64 * n) {
+      steps_case(&mut rng, k);
+    }
+    for k in 0..(20 * n) {
+      steps2d_case(&mut rng, k, 1500);
+    }
+    idx_cases(&mut rng, 50 * n);
+    transpose_cases(&mut rng);
+    for k in 0..(10 * n) {
+      space_case(&mut rng, k);
+    }
+  }
+  if mode == "range" || mode == "all" {
+    for k in 0..n.max(2) {
+      range_case(&mut rng, k);
+    }
+  }
 }
